@@ -129,10 +129,13 @@ PROPS.update({
         not_covered=["SE(3) and compound constructors", "unit norm of the normalised quaternion up to tolerance (needs an error bound on sqrt)"],
     ),
     "C13": dict(
-        k_harnesses=True, level="other",
-        explanation="Kani/CBMC on the real CompoundStateSpace / SE2StateSpace through real Box<dyn AnyStateSpace> dispatch and Any downcasts, for the layout R^1 x SO(2) with symbolic weights, bounds and states: distance == sqrt(0 + sum (d_i w_i)^2) bit for bit, the resolution is the same weighted combination, interpolate / satisfies_bounds / enforce_bounds act component by component (each component equals the component space's own result bit for bit), downcasts never fail; SE(2) equals the compound of R^2 and SO(2) with weights (1, w). BOUNDED in layout: level `other`.",
-        assumptions=K_ASSUME,
-        not_covered=["layouts other than R^1 x SO(2) and SE(2); SE(3); sample_uniform component-wise (not executed under CBMC)"],
+        k_harnesses=True, v_units=["compound_space"], level="proof",
+        explanation="Verus unit V-compound on the real CompoundStateSpace (new, distance, interpolate, enforce_bounds, satisfies_bounds, get_longest_valid_segment_length) for EVERY layout (any number and kind of components, any weights), against the contract of the type-erased component interface AnyStateSpace (distance_dyn ... return the component space's own result; a call requires a state of the component's type): distance == sqrt(sq_sum) where sq_sum is the left-to-right sum of (d_i * w_i)^2 over all components (spec fn `sq_sum`, float operations uninterpreted but the SAME operations), resolution == the same combination of the component resolutions, satisfies_bounds == conjunction of all component checks, interpolate / enforce_bounds relate EVERY output component to the component space's result and touch nothing else, every index is in range and every per-component call gets a state of the right type (no downcast panic) provided the state has the layout of the space. Plus Kani/CBMC on the real CompoundStateSpace / SE2StateSpace through real Box<dyn AnyStateSpace> dispatch and Any downcasts, for the layout R^1 x SO(2) with symbolic weights, bounds and states: distance == sqrt(0 + sum (d_i w_i)^2) bit for bit, the resolution is the same weighted combination, interpolate / satisfies_bounds / enforce_bounds act component by component (each component equals the component space's own result bit for bit), downcasts never fail; SE(2) equals the compound of R^2 and SO(2) with weights (1, w). BOUNDED in layout: level `other`.",
+        assumptions=K_ASSUME + ["V-compound: the contract of AnyStateSpace (verus/prelude/spaces.rs): each *_dyn method returns the component space's own result and requires a state of the component's type (the blanket impl with its Any downcasts is exercised by the Kani harnesses on concrete layouts, not by Verus)",
+                     "V-compound: Verus' semantics of `&mut *v[i]` on Vec<Box<dyn State>> (only element i changes); f64 +, *, powi(2), sqrt are uninterpreted functions of their arguments (the law is proved as equality of the SAME expression tree, hence bit for bit)",
+                     "V-compound unit preprocessing: assert_eq!(a, b, msg) -> a call whose precondition is a == b (so the layout assertions are PROVED never to fire given state_ok); #[derive(Clone)] dropped; sample_uniform is external_body; unit rule R19 (x += e -> x = x + e on f64)",
+                     "Verus 0.2026.09.13 / Z3"],
+        not_covered=["SE(2) / SE(3) newtypes equal the compound of their parts: Kani only, bounded layouts (SE(2) thorough tier; SE(3) not decided)", "sample_uniform component-wise (Box<dyn State> construction from the dyn sampler is outside the Verus subset; not executed under CBMC)", "the blanket impl of AnyStateSpace (Any downcasts) is covered by the Kani harnesses on concrete layouts only; in the Verus unit it is the trait contract"],
     ),
 })
 for _k in ("C09", "C10", "C11", "C12", "C13"):
